@@ -448,5 +448,128 @@ theorem queueFin_snd (s s' : Tcb) (e : s.queueFin = .ok s') : SndGrow s s' := by
       rw [h1, h2]
       exact Nat.le_refl _
 
+theorem sent_congr {s s' : Tcb} (h1 : s'.snd.iss = s.snd.iss) (h2 : s'.snd.nxt = s.snd.nxt) :
+    s'.sent = s.sent := by unfold sent; rw [h1, h2]
+
+/-- **`segments()`**: ISS kept, SND.NXT only forward, the invariant carried over, and every
+    segment handed to the network lies below the new SND.NXT -/
+theorem segments_snd (s s' : Tcb) (out : List Segment) (e : s.segments = .ok (s', out))
+    (hb : SndBelow s) (hr : Room s) :
+    s'.snd.iss = s.snd.iss ∧ s.sent ≤ s'.sent ∧ SndBelow s' ∧
+      (∀ σ ∈ out, SegBelow s.snd.iss s'.sent σ) ∧
+      s'.sent + s'.outgoing.text.length ≤ s.sent + s.outgoing.text.length + 1 := by
+  unfold segments at e
+  dsimp only at e
+  cases h1 : segmentizeIfOpen { s with outgoing.oneshot := [] } with
+  | error err => rw [h1] at e; simp at e
+  | ok s1 =>
+    rw [h1] at e
+    dsimp only at e
+    have hb0 : SndBelow ({ s with outgoing.oneshot := [] } : Tcb) :=
+      ⟨hb.pos, hb.queue, fun x hx => by simp at hx⟩
+    have k1 : s1.snd.iss = s.snd.iss ∧ s.sent ≤ s1.sent ∧ SndBelow s1 ∧
+        s1.sent + s1.outgoing.text.length = s.sent + s.outgoing.text.length := by
+      unfold segmentizeIfOpen at h1
+      split at h1
+      all_goals first
+        | (cases h1; exact ⟨rfl, Nat.le_refl _, hb0, rfl⟩)
+        | (split at h1
+           · simp at h1
+           · have g := segmentize_snd _ _ _ _ _ h1 hb0 hr
+             exact g)
+    obtain ⟨i1, m1, b1, r1⟩ := k1
+    have hr1 : Room s1 := by unfold Room at hr ⊢; omega
+    cases h2 : finIfPending s.finPending s1 with
+    | error err => rw [h2] at e; simp at e
+    | ok s2 =>
+      rw [h2] at e
+      dsimp only at e
+      have k2 : SndGrow s1 s2 := by
+        unfold finIfPending at h2
+        split at h2
+        · exact queueFin_snd _ _ h2
+        · cases h2; exact (SndKeep.refl _).grow
+      have b2 := k2.below b1 hr1
+      have i2 : s2.snd.iss = s.snd.iss := k2.iss.trans i1
+      simp only [Except.ok.injEq, Prod.mk.injEq] at e
+      obtain ⟨hs', hout⟩ := e
+      have hq : s'.snd = s2.snd ∧ s'.outgoing.text = s2.outgoing.text ∧ s'.outgoing.oneshot = s2.outgoing.oneshot ∧
+          s'.outgoing.retransmit = s2.outgoing.retransmit.map fun t => { t with needsTransmit := false } := by
+        rw [← hs']; split <;> exact ⟨rfl, rfl, rfl, rfl⟩
+      have hsent : s'.sent = s2.sent := by unfold sent; rw [hq.1]
+      have hiss : s'.snd.iss = s.snd.iss := by rw [hq.1]; exact i2
+      have b' : SndBelow s' := by
+        refine ⟨by rw [hsent]; exact b2.pos, fun t ht => ?_, fun x hx => b2.plain x (by rw [hq.2.2.1] at hx; exact hx)⟩
+        rw [hq.2.2.2] at ht
+        obtain ⟨t0, ht0, rfl⟩ := List.mem_map.1 ht
+        rw [hsent, hq.1]
+        exact b2.queue t0 ht0
+      refine ⟨hiss, by rw [hsent]; exact Nat.le_trans m1 (k2.mono hr1), b', ?_, ?_⟩
+      · intro σ hσ
+        rw [← hout] at hσ
+        rcases List.mem_append.1 hσ with h | h
+        · obtain ⟨hd, hhd, rfl⟩ := List.mem_map.1 h
+          have hp := hb.plain hd hhd
+          refine ⟨fun hsyn => by rw [hp.1] at hsyn; simp at hsyn, fun hl => ?_⟩
+          simp [Segment.segLen, hp.1, hp.2] at hl
+        · obtain ⟨t, ht, rfl⟩ := List.mem_map.1 h
+          have := b2.queue t (List.mem_filter.1 ht).1
+          rw [hsent, ← i2]
+          exact this
+      · rw [hsent, hq.2.1]
+        have := k2.room hr1
+        omega
+
+/-- **`close()`** -/
+theorem close_snd (s s' : Tcb) (r : CloseResult) (e : s.close = .ok (s', r)) : SndGrow s s' := by
+  have lift : ∀ t : Tcb, t.snd = s.snd → t.outgoing = s.outgoing → ∀ t', SndGrow t t' → SndGrow s t' := by
+    intro t h1 h2 t' g
+    have hs : t.sent = s.sent := by unfold sent; rw [h1]
+    have hroom : Room s → Room t := by unfold Room; rw [hs, h2]; exact id
+    have hbel : SndBelow s → SndBelow t := fun hb =>
+      ⟨by rw [hs]; exact hb.pos, fun x hx => by rw [hs, h1]; exact hb.queue x (by rw [h2] at hx; exact hx),
+        fun x hx => hb.plain x (by rw [h2] at hx; exact hx)⟩
+    exact ⟨by rw [g.iss, h1], fun hr => by rw [← hs]; exact g.mono (hroom hr),
+      fun hb hr => g.below (hbel hb) (hroom hr), fun hr => by rw [← hs, ← h2]; exact g.room (hroom hr)⟩
+  unfold close at e
+  split at e
+  all_goals first
+    | (cases e; exact (SndKeep.refl _).grow)
+    | (split at e
+       · simp at e
+       · rename_i t h1
+         cases e
+         have g := queueFin_snd _ _ h1
+         refine lift _ ?_ ?_ _ g <;> rfl)
+
+/-- a fresh TCB (only its SYN numbered, empty queues) after queueing its SYN -/
+theorem sndBelow_fresh (t0 : Tcb) (hd : Hdr) (iss : Seq) (h1 : t0.snd.iss = iss) (h2 : t0.snd.nxt = iss + 1)
+    (h3 : t0.outgoing.retransmit = []) (h4 : t0.outgoing.oneshot = [])
+    (hs : hd.ctl.syn = true) (hf : hd.ctl.fin = false) (hseq : hd.seq = iss) :
+    SndBelow (t0.enqueueBuilt hd) ∧ (t0.enqueueBuilt hd).snd.iss = iss ∧ (t0.enqueueBuilt hd).sent = 1 := by
+  have hsent : t0.sent = 1 := by
+    unfold sent; rw [h1, h2, off_add_one iss iss (by rw [off_self]; omega), off_self]
+  have k := sndKeep_enqueue_syn t0 hd hs hf (by rw [hseq, h1])
+  have b0 : SndBelow t0 := ⟨by rw [hsent]; exact Nat.le_refl _, fun t ht => by rw [h3] at ht; simp at ht,
+    fun x hx => by rw [h4] at hx; simp at hx⟩
+  exact ⟨k.below b0, by rw [k.iss, h1], by rw [sent_congr k.iss k.nxt, hsent]⟩
+
+/-- an actively opened TCB satisfies the invariant and carries our ports -/
+theorem open_snd (lp rp : U16) (iss : Seq) (mtu : U16) (s : Tcb) (e : Tcb.open lp rp iss mtu = .ok s) :
+    SndBelow s ∧ s.snd.iss = iss ∧ s.sent = 1 ∧ s.localPort = lp ∧ s.remotePort = rp ∧
+      s.state = .SynSent ∧ s.incoming.segments = [] := by
+  unfold Tcb.open at e
+  dsimp only at e
+  rw [enqueue_eq] at e
+  cases e
+  refine ⟨?_, ?_, ?_, ?_, ?_, ?_, ?_⟩
+  · refine (sndBelow_fresh _ _ iss ?_ ?_ ?_ ?_ ?_ ?_ ?_).1 <;> rfl
+  · refine (sndBelow_fresh _ _ iss ?_ ?_ ?_ ?_ ?_ ?_ ?_).2.1 <;> rfl
+  · refine (sndBelow_fresh _ _ iss ?_ ?_ ?_ ?_ ?_ ?_ ?_).2.2 <;> rfl
+  · exact (enqueueBuilt_frame _ _).2.2.2.2.2.2.2.2.1
+  · exact (enqueueBuilt_frame _ _).2.2.2.2.2.2.2.2.2
+  · exact (enqueueBuilt_frame _ _).2.2.2.2.1
+  · rw [(enqueueBuilt_frame _ _).2.2.2.1]
+
 end Tcb
 end Elvis.Tcp
